@@ -30,9 +30,19 @@ def build(tier, known):
                              bound=f'a, b, c of shapes {sh} (e: one of the first 3 enum items, sK: any ASCII string of K bytes, u: any u64, f: any f64 bit pattern)' + ('; attribute names: any of the first 3 names' if with_attr else ''),
                              claim='cmp(a,a) = Equal; cmp(b,a) = reverse(cmp(a,b)); transitive; cmp(a,b) = Equal <=> a == b',
                              native=('data', 'n_c14_value_order'), timeout=600, known_keys=('C14-float-nan-compares-equal',)))
+    # ---- the element comparison itself: three sibling packages that differ only in their item name ----
+    hs.append(Harness('n_c14_element_order', 'data', 'element.rs', '', functions=[], bound='', claim='', role='native'))
+    lens = [[1, 1, 1], [2, 2, 2], [2, 3, 3], [2, 3, 4], [3, 3, 3]] if q else [[1, 1, 1], [2, 2, 2], [2, 2, 3], [2, 3, 3], [2, 3, 4], [3, 3, 3], [3, 3, 4], [3, 4, 4], [2, 4, 4]]
+    for ls in lens:
+        hs.append(E2Spec(f'e2_c14_element_names_{"_".join(map(str, ls))}', 'C14ElementOrder', dict(lens=ls),
+                         functions=['<Element as Ord>::cmp', 'Element::item_name', 'ElementRaw::item_name', 'element::decompose_item_name', 'Element::get_sub_element', 'Element::character_data',
+                                    'Element::attribute_value', '<ElementContent as Ord>::cmp (derived)', '<CharacterData as Ord>::cmp'],
+                         bound=f'three AR-PACKAGE elements whose only content is a SHORT-NAME; item names of {ls} bytes over [A-Za-z][A-Za-z0-9_]*; locks and Arc replaced by single-threaded stand-ins',
+                         claim='cmp(a,a) = Equal; antisymmetric; transitive; Equal <=> equal names',
+                         native=('data', 'n_c14_element_order'), timeout=1200 if q else 7200, known_keys=('C14-element-name-order-cycle',)))
     info = dict(
         assumptions=['E2 library models (mirsym/models.py) trusted, validated against the native build; f64 comparison = IEEE 754 (z3 FP theory)'],
-        outside_claim=['the element comparison `impl Ord for Element` (index, decomposed item name, definition ref, content): element tree behind Arc<RwLock>',
+        outside_claim=['element comparison beyond the item-name rule (INDEX sub-elements, DEFINITION-REF, DEST, deeper content) and everything else sort does',
                        'content preservation / validity / index integrity after sort, restriction to reorderable containers (element tree)',
                        'strings longer than the stated bound; enum items and attribute names beyond the first three'],
     )
